@@ -22,6 +22,44 @@ theorem py_flag_eq_spec (c : Cfg) (s : Site) (hp : pyPos s.pos = true) (ht : s.i
   cases hpos : s.pos <;> simp [pyPos, hpos] at hp <;> simp only [ht] <;>
     cases h1 : s.testFile <;> cases h2 : c.allows s.value <;> cases h3 : s.value.isIntLe c.maxSmall <;> cases h4 : s.isFloat <;> simp_all
 
+/-- the definition-file test of the code is the documented one (the thresholds and name patterns are
+    regenerated from `definition_detector.py`; a change there breaks this proof) -/
+theorem definition_file_eq_spec (f : FileFacts) : isDefinitionFile f = specDefinitionFile f := by
+  have hs : Gen.Magic.definitionNameSuffixes = ["_codes.py", "_constants.py"] := by decide
+  have he : Gen.Magic.definitionNameExact = ["constants.py"] := by decide
+  have hu : Gen.Magic.minUppercaseConstants = 10 := by decide
+  have hd : Gen.Magic.minDictIntKeys = 5 := by decide
+  simp only [isDefinitionFile, specDefinitionFile, matchesDefinitionName, hs, he, hu, hd, List.any_cons, List.any_nil, Bool.or_false]
+  cases ("_codes.py".toList.isSuffixOf (f.name.map lowerAscii)) <;>
+    cases ("_constants.py".toList.isSuffixOf (f.name.map lowerAscii)) <;>
+    cases h3 : ("constants.py".toList == f.name.map lowerAscii) <;>
+    cases h4 : (f.name.map lowerAscii == "constants.py".toList) <;> simp_all
+
+/-- **Python, whole file**: a literal is reported iff the file is not a constants-definition module, its
+    value is not allowed and its position is not exempt -/
+theorem py_file_flag_eq_spec (c : Cfg) (f : FileFacts) (s : Site) (hp : pyPos s.pos = true) (ht : s.inTest = false) :
+    pyFlagIn c f s = specFlagIn "python" c f s := by
+  simp [pyFlagIn, specFlagIn, definition_file_eq_spec, py_flag_eq_spec c s hp ht]
+
+/-- a definition file reports nothing, whatever it contains -/
+theorem definition_file_silent (c : Cfg) (f : FileFacts) (sites : List Site) (h : isDefinitionFile f = true) :
+    sites.filter (pyFlagIn c f) = [] := by
+  simp [pyFlagIn, h]
+
+/-- integer keys are counted **per dict**: a file whose every dict has fewer than five integer keys, with
+    fewer than ten constants and an ordinary name, is not a definition file however many dicts it has -/
+theorem small_dicts_never_exempt (f : FileFacts) (hn : matchesDefinitionName f.name = false) (hu : f.upperConsts < 10)
+    (hd : ∀ k ∈ f.dictIntKeys, k < 5) : isDefinitionFile f = false := by
+  have hu' : Gen.Magic.minUppercaseConstants = 10 := by decide
+  have hd' : Gen.Magic.minDictIntKeys = 5 := by decide
+  simp only [isDefinitionFile, hn, hu', hd', Bool.false_or, Bool.or_eq_false_iff, decide_eq_false_iff_not, List.any_eq_false,
+    decide_eq_true_eq]
+  exact ⟨by omega, fun k hk => by have := hd k hk; omega⟩
+
+example : isDefinitionFile ⟨"mod.py".toList, 3, [3, 3, 4]⟩ = false ∧ isDefinitionFile ⟨"mod.py".toList, 3, [3, 5]⟩ = true ∧
+    isDefinitionFile ⟨"Status_CODES.py".toList, 0, []⟩ = true ∧ isDefinitionFile ⟨"codes.py".toList, 9, [4]⟩ = false ∧
+    isDefinitionFile ⟨"constants.py".toList, 0, []⟩ = true ∧ isDefinitionFile ⟨"mod.py".toList, 10, []⟩ = true := by decide
+
 /-- **TypeScript/JavaScript**, for literals whose text is read as their true value -/
 theorem ts_flag_eq_spec (c : Cfg) (s : Site) (hp : tsPos s.pos = true) (ht : s.inTest = false) :
     tsFlag c (some s.value) s = specFlag "typescript" c s := by
